@@ -478,3 +478,29 @@ def closure_models(ctx, builder, bindings=None) -> List[ClosureModel]:
                 attrs[e.x.get("attr")] = (e.x["value"], e)
         out[oid] = ClosureModel(builder, fn, oid, attrs, binds, p.events)
     return list(out.values())
+
+
+def seq_model(p: Path, t: ast.AST, upto: Optional[int] = None) -> Optional[List[ast.AST]]:
+    """Elements of the sequence `t` denotes on this path, in order: a tuple/list display as written, or a list placeholder
+    `$lN` with the appends / extends applied to it before event index `upto` (an extend contributes a Starred element)."""
+    evs = p.events
+    if isinstance(t, (ast.Tuple, ast.List)):
+        return list(t.elts)
+    if not (isinstance(t, ast.Name) and t.id.startswith("$l") and t.id[2:].isdigit()):
+        return None
+    i = int(t.id[2:])
+    if i >= len(evs) or evs[i].kind != "alloc" or not isinstance(evs[i].term, (ast.List, ast.Tuple)):
+        return None
+    out = list(evs[i].term.elts)
+    for e in evs[i + 1: upto]:
+        if e.kind == "call" and isinstance(e.term.func, ast.Attribute) and show(e.term.func.value) == t.id:
+            op = e.term.func.attr
+            if op == "append" and len(e.term.args) == 1:
+                out.append(e.term.args[0])
+            elif op == "extend" and len(e.term.args) == 1:
+                out.append(ast.Starred(value=e.term.args[0], ctx=ast.Load()))
+            elif op == "insert" and len(e.term.args) == 2 and isinstance(e.term.args[0], ast.Constant) and e.term.args[0].value == 0:
+                out.insert(0, e.term.args[1])
+            else:
+                return None
+    return out
